@@ -186,8 +186,23 @@ func runC12(r *simkit.Run, c Cfg) {
 	var mhs []multihash.Multihash
 	other := must(multihash.Sum([]byte("other-passphrase"), multihash.SHA2_256, -1))
 	for i := 0; i < nmh; i++ {
-		hf := []uint64{multihash.SHA2_256, multihash.SHA2_512, multihash.IDENTITY}[tp.Choose(3, "mhfn")]
-		mh := must(multihash.Sum([]byte(fmt.Sprintf("content-%d-%d", r.Seed%7, i)), hf, -1))
+		// content multihashes of several kinds - among them double-SHA-256
+		// ones (what the second hash itself is made with), SHA-1 and a
+		// truncated digest
+		hf := []uint64{multihash.SHA2_256, multihash.SHA2_512, multihash.IDENTITY, multihash.DBL_SHA2_256, multihash.SHA1, multihash.SHA3_256}[tp.Choose(6, "mhfn")]
+		var mh multihash.Multihash
+		switch hf {
+		case multihash.DBL_SHA2_256, multihash.SHA3_256:
+			d1 := sha256.Sum256([]byte(fmt.Sprintf("content-%d-%d", r.Seed%7, i)))
+			d2 := sha256.Sum256(d1[:])
+			n := 32
+			if hf == multihash.SHA3_256 {
+				n = 20 // (a truncated digest; the bytes need not be a real sha3 value)
+			}
+			mh = must(multihash.Encode(d2[:n], hf))
+		default:
+			mh = must(multihash.Sum([]byte(fmt.Sprintf("content-%d-%d", r.Seed%7, i)), hf, -1))
+		}
 		mhs = append(mhs, mh)
 		mh2 := independentSecondHash(mh)
 		if lib := dhash.SecondMultihash(mh); !bytes.Equal(lib, mh2) || bytes.Equal(lib, mh) {
